@@ -657,3 +657,470 @@ Proof.
       destruct (event_crasher n s T f ev Hin) as [c' [Hc' [Hcr' Ht']]].
       specialize (E4 c' Hc' Hcr'). lia.
 Qed.
+
+(* ---- signals ---- *)
+Lemma getsig_setsig s s' h t : getsig s (setsig s' h t) = if Nat.eqb s' s then h else getsig s t.
+Proof. reflexivity. Qed.
+
+Lemma restore_spec L : forall t0 t1 s,
+  getsig s (fold_left (fun t sh => setsig (fst sh) (snd sh) t) (map (fun k => (k, getsig k t0)) L) t1)
+  = if existsb (Nat.eqb s) L then getsig s t0 else getsig s t1.
+Proof.
+  induction L as [|k L IH]; intros; [reflexivity|]. cbn [map fold_left existsb fst snd]. rewrite IH.
+  destruct (existsb (Nat.eqb s) L); [rewrite orb_true_r; reflexivity|]. rewrite orb_false_r.
+  rewrite getsig_setsig. rewrite (Nat.eqb_sym s k). destruct (Nat.eqb_spec k s); [subst; reflexivity|reflexivity].
+Qed.
+
+Lemma existsb_in s L : In s L -> existsb (Nat.eqb s) L = true.
+Proof. intros H. apply existsb_exists. exists s. split; [exact H|apply Nat.eqb_refl]. Qed.
+
+(* ---- _clean ---- *)
+Lemma cancel_all_spec dcs : forall n s q hk rd rn rs orc st sg fl sp ran re,
+  fold_left (fun w c => set_r (cancel (dc_seq c) (w_r w)) w) dcs
+            (mkW (mkReactor n s q hk rd rn rs orc) st sg fl sp ran re)
+  = mkW (mkReactor n s (fold_left (fun q (c : dcall action) => remove_seq (dc_seq c) q) dcs q) hk rd rn rs orc)
+        st sg fl sp ran re.
+Proof. induction dcs as [|c r IH]; intros; [reflexivity|]. cbn [fold_left]. unfold cancel, set_queue, set_r. cbn. apply IH. Qed.
+
+Lemma cancel_all_empty (dcs : list (dcall action)) : forall q : list (dcall action),
+  (forall x, In x q -> exists c, In c dcs /\ dc_seq c = dc_seq x) ->
+  fold_left (fun q (c : dcall action) => remove_seq (dc_seq c) q) dcs q = [].
+Proof.
+  induction dcs as [|c r IH]; intros q H.
+  - destruct q as [|x q]; [reflexivity|]. destruct (H x (or_introl eq_refl)) as [c [[] _]].
+  - cbn [fold_left]. apply IH. intros x Hx. apply remove_seq_in in Hx as [Hx Hne].
+    destruct (H x Hx) as [c' [[<-|Hc'] E]]; [congruence|]. exists c'. split; assumption.
+Qed.
+
+Lemma filter_sels j k : filter not_timeout_tok (map tok_sel (seq j k)) = map tok_sel (seq j k).
+Proof. revert j; induction k as [|k IH]; intros; [reflexivity|]. cbn [seq map filter]. rewrite IH. reflexivity. Qed.
+
+(* ---- the idle state between runs ---- *)
+Record idle (w : world) : Prop := {
+  id_running : running (w_r w) = false;
+  id_queue : queue (w_r w) = [];
+  id_readers : readers (w_r w) = [];
+  id_hooks : hooks (w_r w) = [];
+  id_rs : really_stopped (w_r w) = false;
+  id_stop : w_stop w = SReal;
+  id_flag : w_flag w = false;
+  id_saved : sp_saved (w_sp w) = []
+}.
+
+Lemma run_body_idle T f n s orc sg su fa spin tc ran re :
+  run_body (inner_run spinner_iterations) spinner_iterations T f
+           (mkW (mkReactor n s [] [] [] false false orc) SReal sg true (mkSp su fa [] spin tc []) ran re)
+  = let saved := map (fun k => (k, getsig k sg)) preserved_signals in
+    let sgR := fold_left (fun t k => setsig k h_reactor t) reactor_signals sg in
+    let '(e, w) := loop w_r set_r exec_call (S (length (f_extras f) + 4))
+                        (run_function (inner_run spinner_iterations) f (wB n s T orc sgR saved ran re)) in
+    let w := restore_signals (set_stop SReal w) in
+    match e with
+    | LDone => (get_result (w_sp w), clean spinner_iterations w)
+    | _ => (Raised EOther, w)
+    end.
+Proof. reflexivity. Qed.
+
+Lemma run_fresh T f w : idle w -> sp_junk (w_sp w) = [] ->
+  exists r w', run spinner_iterations T f w = (r, w')
+    /\ idle w' /\ Allowed T f r
+    /\ w_reentry w' = (if f_reenter f then Some true else w_reentry w)
+    /\ Permutation (w_ran w' ++ filter not_timeout_tok (sp_junk (w_sp w'))) (w_ran w ++ sched_tokens f)
+    /\ (forall s, In s preserved_signals -> getsig s (w_sig w') = getsig s (w_sig w)).
+Proof.
+  intros [I1 I2 I3 I4 I5 I6 I7 I8] Hj.
+  destruct w as [r st sg fl sp ran re]. destruct r as [n s q hk rd rn rs orc]. destruct sp as [su fa jk spin tc sv].
+  cbn in *. subst.
+  unfold run, guarded. cbn [w_flag].
+  change (set_flag true
+            (mkW (mkReactor n s [] [] [] false false orc) SReal sg false (mkSp su fa [] spin tc []) ran re))
+    with (mkW (mkReactor n s [] [] [] false false orc) SReal sg true (mkSp su fa [] spin tc []) ran re).
+  rewrite run_body_idle. cbv zeta.
+  destruct (hook_and_loop T f n s orc (fold_left (fun t k => setsig k h_reactor t) reactor_signals sg)
+                          (map (fun k => (k, getsig k sg)) preserved_signals) ran re
+                          (S (length (f_extras f) + 4))) as [wL [Hloop A]]; [lia|].
+  rewrite Hloop. destruct A as [A1 A2 A3 A4 A5 A6 A7 A8 A9 A10 A11 A12].
+  destruct wL as [rL stL sgL flL spL ranL reL]. destruct rL as [nL sL qL hkL rdL rnL rsL orcL].
+  destruct spL as [suL faL jkL spinL tcL svL].
+  cbn [w_r w_stop w_sig w_flag w_sp w_ran w_reentry sp_junk sp_saved running queue readers hooks really_stopped]
+    in A1, A3, A4, A5, A6, A7, A8, A9, A10, A11, A12. subst.
+  unfold clean. rewrite spinner_iterations_0. unfold Nat.iter. cbn [nat_rect].
+  unfold restore_signals, set_stop, set_sp, set_sig, sp_set_saved.
+  cbn [w_r w_stop w_sig w_flag w_sp w_ran w_reentry sp_success sp_failure sp_junk sp_spinning sp_timeout_call
+       sp_saved queue].
+  match goal with
+  | |- context [fold_left (fun t sh => setsig (fst sh) (snd sh) t) ?l ?t0] =>
+      assert (Hsig : forall k, In k preserved_signals ->
+                getsig k (fold_left (fun t sh => setsig (fst sh) (snd sh) t) l t0) = getsig k sg)
+        by (intros k Hk; rewrite restore_spec, (existsb_in _ _ Hk); reflexivity);
+      set (sgF := fold_left (fun t sh => setsig (fst sh) (snd sh) t) l t0) in *; clearbody sgF
+  end.
+  rewrite cancel_all_spec.
+  rewrite cancel_all_empty by (intros x Hx; exists x; split; [exact Hx|reflexivity]).
+  unfold remove_all, set_readers, set_r, set_sp, sp_set_junk, set_flag. cbn.
+  eexists; eexists. split; [reflexivity|]. cbn.
+  split; [constructor; reflexivity|]. split; [exact A2|]. split; [reflexivity|]. split.
+  - rewrite filter_app. fold (qtoks qL). rewrite filter_sels.
+    rewrite app_assoc. rewrite A3. rewrite <- app_assoc. rewrite Q0_toks. reflexivity.
+  - exact Hsig.
+Qed.
+
+(* C15_stale_junk: nothing at all happens *)
+Lemma run_stale iters T f w : w_flag w = false -> sp_junk (w_sp w) <> [] ->
+  run iters T f w = (Raised EStaleJunk, w).
+Proof.
+  intros Hf Hj. unfold run, guarded. rewrite Hf. unfold run_body. cbn [set_flag w_sp].
+  destruct (sp_junk (w_sp w)) as [|x j]; [contradiction|].
+  destruct w; cbn in *; subst; reflexivity.
+Qed.
+
+(* ------------------------------------------------------------------ *)
+(* Part 4: booleans of the statement; histories                         *)
+(* ------------------------------------------------------------------ *)
+Lemma exc_eqb_spec a b : exc_eqb a b = true <-> a = b.
+Proof.
+  destruct a, b; simpl; split; intro H; try reflexivity; try discriminate.
+  - apply Nat.eqb_eq in H; congruence.
+  - injection H as ->; apply Nat.eqb_refl.
+Qed.
+
+Lemma result_eqb_spec a b : result_eqb a b = true <-> a = b.
+Proof. apply res_eqb_spec; [apply Nat.eqb_eq|apply exc_eqb_spec]. Qed.
+
+Lemma result_eqb_refl a : result_eqb a a = true.
+Proof. apply result_eqb_spec; reflexivity. Qed.
+
+Definition fold_min (a : time) (l : list (time * res value exc)) : time :=
+  fold_right (fun ev m => Nat.min (fst ev) m) a l.
+
+Lemma fold_min_spec (l : list (time * res value exc)) a :
+  fold_min a l <= a /\ (forall ev, In ev l -> fold_min a l <= fst ev)
+  /\ (fold_min a l = a \/ exists ev, In ev l /\ fst ev = fold_min a l).
+Proof.
+  induction l as [|e l IH].
+  - split; [apply Nat.le_refl|]. split; [intros ev []|left; reflexivity].
+  - destruct IH as (H1 & H2 & H3). change (fold_min a (e :: l)) with (Nat.min (fst e) (fold_min a l)).
+    set (m := fold_min a l) in *.
+    split; [etransitivity; [apply Nat.le_min_r|exact H1]|]. split.
+    + intros ev [<-|H]; [apply Nat.le_min_l|]. etransitivity; [apply Nat.le_min_r|]. apply H2. exact H.
+    + destruct (Nat.min_dec (fst e) m) as [E|E]; rewrite E.
+      * right. exists e. split; [left|]; reflexivity.
+      * destruct H3 as [H3|[ev [Hin Hev]]]; [left; exact H3|]. right. exists ev. split; [right|]; assumption.
+Qed.
+
+Lemma earliest_spec evs : evs <> [] ->
+  (forall ev, In ev evs -> earliest evs <= fst ev) /\ (exists ev, In ev evs /\ fst ev = earliest evs).
+Proof.
+  destruct evs as [|e0 l]; [contradiction|]. intros _. unfold earliest. cbn [hd].
+  destruct (fold_min_spec (e0 :: l) (fst e0)) as (H1 & H2 & H3). unfold fold_min in *. split; [exact H2|].
+  destruct H3 as [H3|[ev [Hin Hev]]].
+  - exists e0. split; [left; reflexivity|]. symmetry; exact H3.
+  - exists ev. split; assumption.
+Qed.
+
+Lemma events_nonempty T f : events T f <> [].
+Proof. unfold events. discriminate. Qed.
+
+Lemma allowed_iff T f r : allowed T f r = true <-> Allowed T f r.
+Proof.
+  unfold allowed, Allowed. destruct (f_shape f) as [h o|t o|].
+  - apply result_eqb_spec.
+  - destruct (f_stop_now f); [apply result_eqb_spec|].
+    destruct (earliest_spec (events T f) (events_nonempty T f)) as [Hle [ev0 [Hin0 Hev0]]]. split.
+    + intros H. apply existsb_exists in H as [ev [Hin H]]. apply andb_true_iff in H as [H1 H2].
+      apply Nat.eqb_eq in H1. apply result_eqb_spec in H2. exists (fst ev). split.
+      * rewrite <- H2. destruct ev; exact Hin.
+      * intros ev' Hin'. rewrite H1. apply Hle. exact Hin'.
+    + intros [t' [Hin Hmin]]. apply existsb_exists. exists (t', r). split; [exact Hin|].
+      cbn [fst snd]. rewrite result_eqb_refl, andb_true_r. apply Nat.eqb_eq.
+      specialize (Hmin ev0 Hin0). specialize (Hle (t', r) Hin). cbn [fst] in Hle. lia.
+  - destruct (f_stop_now f); [apply result_eqb_spec|].
+    destruct (earliest_spec (events T f) (events_nonempty T f)) as [Hle [ev0 [Hin0 Hev0]]]. split.
+    + intros H. apply existsb_exists in H as [ev [Hin H]]. apply andb_true_iff in H as [H1 H2].
+      apply Nat.eqb_eq in H1. apply result_eqb_spec in H2. exists (fst ev). split.
+      * rewrite <- H2. destruct ev; exact Hin.
+      * intros ev' Hin'. rewrite H1. apply Hle. exact Hin'.
+    + intros [t' [Hin Hmin]]. apply existsb_exists. exists (t', r). split; [exact Hin|].
+      cbn [fst snd]. rewrite result_eqb_refl, andb_true_r. apply Nat.eqb_eq.
+      specialize (Hmin ev0 Hin0). specialize (Hle (t', r) Hin). cbn [fst] in Hle. lia.
+Qed.
+
+Lemma perm_eqb_iff a b : perm_eqb a b = true <-> forall x, count a x = count b x.
+Proof.
+  unfold perm_eqb. split.
+  - intros H x. destruct (in_dec Nat.eq_dec x (a ++ b)) as [Hin|Hn].
+    + eapply forallb_forall in H; [|exact Hin]. apply Nat.eqb_eq in H. exact H.
+    + unfold count. rewrite !(proj1 (count_occ_not_In Nat.eq_dec _ _)); [reflexivity| |];
+        intro Hx; apply Hn; apply in_or_app; auto.
+  - intros H. apply forallb_forall. intros x _. apply Nat.eqb_eq. apply H.
+Qed.
+
+Lemma perm_eqb_of_perm a b : Permutation a b -> perm_eqb a b = true.
+Proof. intros H. apply perm_eqb_iff. intros x. apply Permutation_count_occ. exact H. Qed.
+
+Lemma filter_perm {A} (f : A -> bool) l l' : Permutation l l' -> Permutation (filter f l) (filter f l').
+Proof.
+  induction 1; simpl.
+  - reflexivity.
+  - destruct (f x); [apply perm_skip|]; assumption.
+  - destruct (f x), (f y); try reflexivity. apply perm_swap.
+  - etransitivity; eassumption.
+Qed.
+
+Lemma sort_perm l : Permutation l (sort_toks l).
+Proof. apply isort_perm. Qed.
+
+Lemma sort_nil_iff l : sort_toks l = [] <-> l = [].
+Proof.
+  split; intros H; [|subst; reflexivity].
+  pose proof (sort_perm l) as P. rewrite H in P. apply Permutation_nil. symmetry. exact P.
+Qed.
+
+(* the harness' preparations keep the reactor idle *)
+Definition prepare (w : world) (rs : runspec) : world :=
+  set_reentry None (set_ran [] (preinstall (r_pre rs) (if r_clear rs then clear_junk w else w))).
+
+Lemma prepare_idle w rs : idle w -> idle (prepare w rs).
+Proof.
+  intros [I1 I2 I3 I4 I5 I6 I7 I8]. unfold prepare, preinstall, clear_junk.
+  destruct (r_clear rs); constructor; cbn; assumption.
+Qed.
+
+Lemma prepare_junk w rs :
+  sp_junk (w_sp (prepare w rs)) = if r_clear rs then [] else sp_junk (w_sp w).
+Proof. unfold prepare, preinstall, clear_junk. destruct (r_clear rs); reflexivity. Qed.
+
+Lemma prepare_sigs w rs : wf_run rs ->
+  map (fun s => getsig s (w_sig (prepare w rs))) reactor_signals = r_pre rs.
+Proof.
+  unfold wf_run, prepare, preinstall. cbn [w_sig set_reentry set_ran set_sig].
+  generalize (w_sig (if r_clear rs then clear_junk w else w)). intros t.
+  destruct (r_pre rs) as [|a [|b [|c [|d l]]]]; try discriminate. intros _. reflexivity.
+Qed.
+
+Lemma step_eq w rs :
+  step w rs = let '(r, w') := run spinner_iterations (r_timeout rs) (r_fn rs) (prepare w rs) in (observe r w', w').
+Proof. reflexivity. Qed.
+
+Lemma idle_clean_obs w r : idle w -> let o := observe r w in
+  o_running o = false /\ o_pending o = 0 /\ o_readers o = 0 /\ o_stop_ok o = true.
+Proof.
+  intros [I1 I2 I3 I4 I5 I6 I7 I8]. unfold observe. cbn. rewrite I1, I2, I3, I5, I6. repeat split.
+Qed.
+
+Lemma step_ok w rs : idle w -> wf_run rs ->
+  let '(o, w') := step w rs in
+  idle w'
+  /\ Run_spec (if r_clear rs then [] else sort_toks (sp_junk (w_sp w))) rs o
+  /\ o_junk o = sort_toks (sp_junk (w_sp w')).
+Proof.
+  intros Hid Hwf. rewrite step_eq.
+  pose proof (prepare_idle w rs Hid) as Hid3. pose proof (prepare_junk w rs) as Hj3.
+  pose proof (prepare_sigs w rs Hwf) as Hs3.
+  assert (Hran3 : w_ran (prepare w rs) = []) by reflexivity.
+  assert (Hre3 : w_reentry (prepare w rs) = None) by reflexivity.
+  set (w3 := prepare w rs) in *.
+  destruct (sp_junk (w_sp w3)) as [|x j] eqn:Ej.
+  - (* no stale junk: the run happens *)
+    destruct (run_fresh (r_timeout rs) (r_fn rs) w3 Hid3 Ej) as (r & w' & Hrun & Hid' & Hal & Hre & Hperm & Hsig).
+    rewrite Hrun. split; [exact Hid'|]. split; [|reflexivity].
+    assert (Est : (if r_clear rs then [] else sort_toks (sp_junk (w_sp w))) = []).
+    { destruct (r_clear rs); [reflexivity|]. rewrite <- Hj3. reflexivity. }
+    rewrite Est. destruct (idle_clean_obs w' r Hid') as (C1 & C2 & C3 & C4).
+    split; [|split; [|split]].
+    + unfold Clean. repeat split; auto. cbn [observe o_sigs]. rewrite <- Hs3.
+      apply map_ext_in. intros s Hs. apply Hsig. apply reactor_signals_preserved. exact Hs.
+    + exact Hal.
+    + cbn [observe o_reentry]. rewrite Hre, Hre3. reflexivity.
+    + intros t. cbn [observe o_ran o_junk]. apply Permutation_count_occ.
+      rewrite Hran3 in Hperm. cbn [app] in Hperm. rewrite <- Hperm.
+      apply Permutation_app; [symmetry; apply sort_perm|]. apply filter_perm. symmetry; apply sort_perm.
+  - (* stale junk: refused, nothing happens *)
+    rewrite (run_stale spinner_iterations (r_timeout rs) (r_fn rs) w3); [|apply Hid3|rewrite Ej; discriminate].
+    split; [exact Hid3|]. split; [|reflexivity].
+    assert (Est : (if r_clear rs then [] else sort_toks (sp_junk (w_sp w))) = sort_toks (x :: j)).
+    { destruct (r_clear rs); [discriminate Hj3|]. rewrite <- Hj3. reflexivity. }
+    rewrite Est. destruct (sort_toks (x :: j)) as [|y l] eqn:Esort.
+    { apply (proj1 (sort_nil_iff (x :: j))) in Esort. discriminate Esort. }
+    destruct (idle_clean_obs w3 (Raised EStaleJunk) Hid3) as (C1 & C2 & C3 & C4).
+    split.
+    + unfold Clean. repeat split; auto.
+    + cbn [observe o_res o_junk o_ran o_reentry]. rewrite Ej, Esort, Hran3, Hre3. repeat split.
+Qed.
+
+(* ------------------------------------------------------------------ *)
+(* Part 5: histories; the statement; the comparison                     *)
+(* ------------------------------------------------------------------ *)
+Lemma new_world_idle orc : idle (new_world orc).
+Proof. constructor; reflexivity. Qed.
+
+Lemma steps_ok rss : forall w, idle w -> Forall wf_run rss ->
+  Runs_spec (sort_toks (sp_junk (w_sp w))) rss (steps w rss).
+Proof.
+  induction rss as [|rs rss IH]; intros w Hid Hwf; cbn [steps]; [exact I|].
+  inversion Hwf as [|? ? Hrs Hrest]; subst.
+  pose proof (step_ok w rs Hid Hrs) as H. destruct (step w rs) as [o w'].
+  destruct H as (Hid' & Hrun & Hj). cbn [Runs_spec]. split; [exact Hrun|]. rewrite Hj. apply IH; assumption.
+Qed.
+
+Lemma model_meets_Spec i : wf i -> Spec i (model i).
+Proof. intros H. unfold Spec, model. apply (steps_ok (i_runs i) (new_world (i_oracle i)) (new_world_idle _) H). Qed.
+
+Lemma clean_okb_iff rs o : clean_okb rs o = true <-> Clean rs o.
+Proof.
+  unfold clean_okb, Clean. rewrite !andb_true_iff, negb_true_iff, !Nat.eqb_eq, (list_eqb_spec Nat.eqb Nat.eqb_eq).
+  tauto.
+Qed.
+
+Lemma run_okb_iff stale rs o : run_okb stale rs o = true <-> Run_spec stale rs o.
+Proof.
+  unfold run_okb, Run_spec. rewrite andb_true_iff, clean_okb_iff. destruct stale as [|x l].
+  - rewrite !andb_true_iff, allowed_iff, (option_eqb_spec Bool.eqb bool_eqb_spec), perm_eqb_iff. tauto.
+  - rewrite !andb_true_iff, result_eqb_spec, !(list_eqb_spec Nat.eqb Nat.eqb_eq),
+      (option_eqb_spec Bool.eqb bool_eqb_spec). tauto.
+Qed.
+
+Lemma runs_okb_iff rss : forall prev os, runs_okb prev rss os = true <-> Runs_spec prev rss os.
+Proof.
+  induction rss as [|rs rss IH]; intros prev [|o os]; cbn [runs_okb Runs_spec]; try tauto;
+    try (split; [discriminate|contradiction]).
+  rewrite andb_true_iff, run_okb_iff, IH. tauto.
+Qed.
+
+Lemma spec_okb_iff i o : spec_okb i o = true <-> Spec i o.
+Proof. apply runs_okb_iff. Qed.
+
+Lemma model_meets_spec i : wf i -> spec_okb i (model i) = true.
+Proof. intros H. apply spec_okb_iff. apply model_meets_Spec. exact H. Qed.
+
+Lemma robs_eqb_spec a b : robs_eqb a b = true <-> a = b.
+Proof.
+  destruct a as [a1 a2 a3 a4 a5 a6 a7 a8 a9], b as [b1 b2 b3 b4 b5 b6 b7 b8 b9]. unfold robs_eqb.
+  cbn [o_res o_reentry o_ran o_junk o_running o_pending o_readers o_stop_ok o_sigs].
+  rewrite !andb_true_iff, result_eqb_spec, (option_eqb_spec Bool.eqb bool_eqb_spec),
+    !(list_eqb_spec Nat.eqb Nat.eqb_eq), !bool_eqb_spec, !Nat.eqb_eq.
+  split.
+  - intros [[[[[[[[-> ->] ->] ->] ->] ->] ->] ->] ->]. reflexivity.
+  - intros H; injection H as -> -> -> -> -> -> -> -> ->. repeat split.
+Qed.
+
+Lemma obs_eqb_spec a b : obs_eqb a b = true <-> a = b.
+Proof. apply list_eqb_spec. apply robs_eqb_spec. Qed.
+
+(* ---- the per-clause theorems, on any idle (fresh or used) spinner ---- *)
+Lemma result_as_timing T f w : idle w -> sp_junk (w_sp w) = [] ->
+  Allowed T f (fst (run spinner_iterations T f w)).
+Proof.
+  intros Hid Hj. destruct (run_fresh T f w Hid Hj) as (r & w' & Hrun & _ & Hal & _). rewrite Hrun. exact Hal.
+Qed.
+
+(* the timing cases spelled out for a Deferred against the timeout alone *)
+Lemma result_cases T f w t o : idle w -> sp_junk (w_sp w) = [] ->
+  f_shape f = Later t o -> f_stop f = None -> f_stop_now f = false ->
+  let r := fst (run spinner_iterations T f w) in
+  (t < T -> r = result_of o) /\ (T < t -> r = Raised ETimeout)
+  /\ (t = T -> r = result_of o \/ r = Raised ETimeout).
+Proof.
+  intros Hid Hj Hsh Hst Hnow. pose proof (result_as_timing T f w Hid Hj) as H.
+  unfold Allowed, events in H. rewrite Hsh, Hst, Hnow in H. cbn [app] in H.
+  destruct H as [t' [Hin Hmin]]. cbv zeta.
+  pose proof (Hmin _ (or_introl eq_refl)) as H1. pose proof (Hmin _ (or_intror (or_introl eq_refl))) as H2.
+  cbn [fst] in H1, H2.
+  destruct Hin as [E|[E|[]]]; injection E as <- <-; repeat split; intros; try lia; auto.
+Qed.
+
+Lemma result_never T f w : idle w -> sp_junk (w_sp w) = [] ->
+  f_shape f = Never -> f_stop f = None -> f_stop_now f = false ->
+  fst (run spinner_iterations T f w) = Raised ETimeout.
+Proof.
+  intros Hid Hj Hsh Hst Hnow. pose proof (result_as_timing T f w Hid Hj) as H.
+  unfold Allowed, events in H. rewrite Hsh, Hst, Hnow in H. cbn [app] in H.
+  destruct H as [t' [[E|[]] _]]. injection E as _ <-. reflexivity.
+Qed.
+
+Lemma result_stopped_first T f w s : idle w -> sp_junk (w_sp w) = [] ->
+  (forall h o, f_shape f <> Sync h o) -> f_stop f = Some s -> s < T ->
+  (forall t o, f_shape f = Later t o -> s < t) ->
+  fst (run spinner_iterations T f w) = Raised ENoResult.
+Proof.
+  intros Hid Hj Hsh Hst HsT Hlt. pose proof (result_as_timing T f w Hid Hj) as H.
+  unfold Allowed, events in H. rewrite Hst in H.
+  destruct (f_shape f) as [h o|t o|] eqn:E.
+  - exfalso. eapply Hsh; reflexivity.
+  - destruct (f_stop_now f); [exact H|]. cbn [app] in H. destruct H as [t' [Hin Hmin]].
+    pose proof (Hmin (s, Raised ENoResult)) as H3. cbn [fst] in H3.
+    specialize (Hlt t o eq_refl).
+    destruct Hin as [E1|[E1|[E1|[]]]]; injection E1 as <- <-; try reflexivity;
+      exfalso; assert (_ <= s) by (apply H3; right; right; left; reflexivity); lia.
+  - destruct (f_stop_now f); [exact H|]. cbn [app] in H. destruct H as [t' [Hin Hmin]].
+    pose proof (Hmin (s, Raised ENoResult)) as H3. cbn [fst] in H3.
+    destruct Hin as [E1|[E1|[]]]; injection E1 as <- <-; try reflexivity;
+      exfalso; assert (_ <= s) by (apply H3; right; left; reflexivity); lia.
+Qed.
+
+Lemma reentry_refused iters T f w : w_flag w = true -> run iters T f w = (Raised EReentry, w).
+Proof. apply guarded_refuses. Qed.
+
+Lemma reentry_from_function T f w : idle w -> sp_junk (w_sp w) = [] -> f_reenter f = true ->
+  w_reentry (snd (run spinner_iterations T f w)) = Some true.
+Proof.
+  intros Hid Hj Hre. destruct (run_fresh T f w Hid Hj) as (r & w' & Hrun & _ & _ & H & _).
+  rewrite Hrun. cbn [snd]. rewrite H, Hre. reflexivity.
+Qed.
+
+Lemma run_keeps_idle T f w : idle w -> idle (snd (run spinner_iterations T f w)).
+Proof.
+  intros Hid. destruct (sp_junk (w_sp w)) as [|x j] eqn:Ej.
+  - destruct (run_fresh T f w Hid Ej) as (r & w' & Hrun & Hid' & _). rewrite Hrun. exact Hid'.
+  - rewrite run_stale; [exact Hid|apply Hid|rewrite Ej; discriminate].
+Qed.
+
+Lemma junk_accounts T f w : idle w -> sp_junk (w_sp w) = [] ->
+  let w' := snd (run spinner_iterations T f w) in
+  Permutation (w_ran w' ++ filter not_timeout_tok (sp_junk (w_sp w'))) (w_ran w ++ sched_tokens f).
+Proof.
+  intros Hid Hj. destruct (run_fresh T f w Hid Hj) as (r & w' & Hrun & _ & _ & _ & H & _).
+  rewrite Hrun. exact H.
+Qed.
+
+Lemma run_restores T f w : idle w ->
+  let w' := snd (run spinner_iterations T f w) in
+  w_stop w' = SReal /\ really_stopped (w_r w') = false
+  /\ forall s, In s preserved_signals -> getsig s (w_sig w') = getsig s (w_sig w).
+Proof.
+  intros Hid. pose proof (run_keeps_idle T f w Hid) as Hid'. cbv zeta.
+  split; [apply Hid'|]. split; [apply Hid'|].
+  destruct (sp_junk (w_sp w)) as [|x j] eqn:Ej.
+  - destruct (run_fresh T f w Hid Ej) as (r & w' & Hrun & _ & _ & _ & _ & H). rewrite Hrun. exact H.
+  - rewrite run_stale; [reflexivity|apply Hid|rewrite Ej; discriminate].
+Qed.
+
+Lemma named_signals_preserved : In sig_int preserved_signals /\ In sig_term preserved_signals
+                                /\ In sig_chld preserved_signals.
+Proof. repeat split; apply reactor_signals_preserved; simpl; auto. Qed.
+
+(* the world after a history *)
+Fixpoint world_after (w : world) (rss : list runspec) : world :=
+  match rss with [] => w | rs :: rest => world_after (snd (step w rs)) rest end.
+
+Lemma world_after_idle rss : forall w, idle w -> Forall wf_run rss -> idle (world_after w rss).
+Proof.
+  induction rss as [|rs rss IH]; intros w Hid Hwf; [exact Hid|]. cbn [world_after].
+  inversion Hwf as [|? ? Hrs Hrest]; subst. apply IH; [|exact Hrest].
+  pose proof (step_ok w rs Hid Hrs) as H. destruct (step w rs) as [o w']. apply H.
+Qed.
+
+Lemma nth_run_like_first orc rss T f : Forall wf_run rss ->
+  let w := clear_junk (world_after (new_world orc) rss) in
+  Allowed T f (fst (run spinner_iterations T f w))
+  /\ idle (snd (run spinner_iterations T f w))
+  /\ (forall s, In s preserved_signals ->
+        getsig s (w_sig (snd (run spinner_iterations T f w))) = getsig s (w_sig w)).
+Proof.
+  intros Hwf. cbv zeta.
+  assert (Hid : idle (clear_junk (world_after (new_world orc) rss))).
+  { pose proof (world_after_idle rss _ (new_world_idle orc) Hwf) as [I1 I2 I3 I4 I5 I6 I7 I8].
+    constructor; assumption. }
+  split; [apply result_as_timing; [exact Hid|reflexivity]|].
+  split; [apply run_keeps_idle; exact Hid|]. apply run_restores. exact Hid.
+Qed.
